@@ -6,9 +6,11 @@ Case (JSON):  {"root": null | "<key>",  "ops": [op, ...]}
                   (children may have the same key as the root).
   ops    dicts, interpreted against the current state (every index is taken modulo the current list):
     {"op":"new", "cls":C, "det":bool, "par":i, "key":V, "name":V, "prio":V, "ro":bool, "lo":V|null,
-     "hi":V|null, "opts":[str], "optsbad":null|"tuple"|"nonstr", "q":Q, "mode":M, "n":int, "x":hex, "v":V}
+     "hi":V|null, "opts":[str], "optsbad":null|"tuple"|"nonstr", "q":Q, "mode":M, "n":int, "x":hex, "v":V,
+     "deep":bool}
          construct a parameter of class C (map int float str bool quantity sel unit generic) under the
-         par-th map (det: without parent); the default value is derived from (mode, n, x, v).
+         par-th map (deep: of the two deepest maps of the root tree; det: without parent); the default
+         value is derived from (mode, n, x, v).
     {"op":"add", "d":i, "m":i, "via":"map|model|junk"}      add the d-th detached parameter to the m-th
          reachable map (via model: model.add_parameter, i.e. to the root; junk: a non-parameter).
     {"op":"remove"|"get", "how":"existing|raw", "t":i, "a":i, "m":i, "path":[str], "via":"map|model"}
@@ -72,7 +74,7 @@ TECHNIQUE = "property-based testing: interpreted op lists against a reference tr
 INF = float("inf")
 NAN = float("nan")
 CLASSES = ["map", "int", "float", "str", "bool", "quantity", "sel", "unit", "generic"]
-KEYS = ["a", "b", "c", "root", "k1"]
+KEYS = ["a", "b", "c", "d", "root", "k1", "e"]
 LOOKUP = KEYS + ["", "zz"]
 QUNITS = {"Length": {"m": 1.0, "km": 1000.0, "cm": 0.01, "mm": 0.001},
           "Duration": {"s": 1.0, "min": 60.0, "h": 3600.0, "day": 86400.0},
@@ -117,7 +119,7 @@ _BAD_BOUNDS = [(["i", 5], ["i", 5]), (["i", 10], ["i", 0]), (["f", _fl(1.0)], ["
 _OPTS = [["a", "b", "c"], ["AZ", "DE", "MD", "CA", "AK", "MD", "VA"], ["x"], [], ["", "a"], ["km", "m", "0"],
          ["abc", "a.b", "ünï"]]
 _PRIOS = [["i", 1], ["f", _fl(1.0)], ["i", 2], ["f", _fl(2.0)], ["f", _fl(0.5)], ["i", 3], ["i", -1],
-          ["f", _fl(2.5)], ["i", 1], ["i", 2]]
+          ["i", 1], ["i", 2]]
 _BAD_KEYS = [["s", ""], ["s", "a.b"], ["i", 3], ["n"], ["s", "."]]
 _BAD_NAMES = [["s", ""], ["i", 3], ["n"]]
 _BAD_PRIOS = [["s", "p"], ["n"], ["l", []]]
@@ -146,14 +148,14 @@ def _values():
     return leaf
 
 
-def _new_ops(valid_only):
+def _new_ops(valid_only, only_map=False):
     idx = st.integers(0, 999)
     vals = _values()
     hexf = _hexfloats()
 
     @st.composite
     def new(draw):
-        cls = draw(st.sampled_from(CLASSES + ["map", "map", "int", "float"]))
+        cls = "map" if only_map else draw(st.sampled_from(CLASSES + ["map", "map", "int", "float"]))
         if valid_only:
             key, name, prio = ["s", draw(st.sampled_from(KEYS))], ["s", "n"], draw(st.sampled_from(_PRIOS))
             mode, badb, optsbad, det = "in", False, None, False
@@ -174,7 +176,7 @@ def _new_ops(valid_only):
             lo, hi = draw(st.sampled_from(_BAD_BOUNDS if badb else _SI_BOUNDS))
         else:
             lo = hi = None
-        op = {"op": "new", "cls": cls, "det": det, "par": draw(idx), "key": key, "name": name, "prio": prio,
+        op = {"op": "new", "cls": cls, "det": det, "par": draw(idx), "deep": draw(st.integers(0, 2)) > 0, "key": key, "name": name, "prio": prio,
               "ro": draw(st.integers(0, 5)) == 0, "lo": lo, "hi": hi, "mode": mode, "n": draw(idx),
               "x": draw(hexf)}
         if cls == "sel":
@@ -196,6 +198,7 @@ def strategy(tier):
     vals = _values()
     hexf = _hexfloats()
     warm_new = _new_ops(True)
+    warm_map = _new_ops(True, only_map=True)
     free_new = _new_ops(False)
 
     @st.composite
@@ -214,7 +217,7 @@ def strategy(tier):
         op = {"op": name, "how": how, "via": "model" if draw(st.integers(0, 4)) == 0 else "map"}
         if how == "existing":
             op["t"] = draw(idx)
-            op["a"] = draw(st.sampled_from([0, 0, 1, 2, 3, 999]))
+            op["a"] = draw(st.sampled_from([0, 1, 1, 2, 3, 998, 999]))
         else:
             op["m"] = draw(idx)
             op["path"] = draw(st.lists(st.sampled_from(LOOKUP), min_size=1, max_size=3))
@@ -239,7 +242,7 @@ def strategy(tier):
     @st.composite
     def case(draw):
         root = draw(st.sampled_from([None, None, "a", "root", "r"]))
-        head = draw(st.lists(warm_new, min_size=2, max_size=6))
+        head = [draw(warm_map)] + draw(st.lists(warm_new, min_size=2, max_size=6))
         body = draw(st.lists(any_op(), min_size=draw(st.sampled_from([1, 6, 12])), max_size=maxops))
         return {"root": root, "ops": head + body}
 
@@ -608,8 +611,13 @@ class _State:
     def tops(self):
         return [self.root] + self.detached
 
-    def maps(self):
-        return [n for t in self.tops() for n, _ in _walk(t) if n.cls == "map"]
+    def maps(self, deep=False):
+        ms = [(n, d) for t in self.tops() for n, d in _walk(t) if n.cls == "map"]
+        if deep:        # the two deepest maps of the root tree (favours trees of depth >= 2)
+            rt = [(n, d) for n, d in _walk(self.root) if n.cls == "map"]
+            rt.sort(key=lambda nd: -nd[1])
+            return [n for n, _ in rt[:2]]
+        return [n for n, _ in ms]
 
     def leaves(self, any_node):
         nodes = [n for t in self.tops() for n, _ in _walk(t)]
@@ -835,7 +843,7 @@ def run_case(case):
         memb_kind = "children-membership"
         # ------------------------------------------------------------------ new
         if name == "new":
-            maps = S.maps()
+            maps = S.maps(deep=bool(op.get("deep")))
             parent = None if op.get("det") else maps[op["par"] % len(maps)]
             call, proto, why, tagged, either = _construct(S, op, parent)
             concrete.append({"new": op["cls"], "under": None if parent is None else _rel_top(parent),
